@@ -372,6 +372,12 @@ def rule_noninterference(an, res):
 def rule_c09(an, res):
     check_allow_encoding(an, res)
     rule_insert_table(an, res, 'C09')
+    # ut_map / ut_set: "has a live entry" is read off the index, which is only right after the expired prefix was purged
+    for cm, roles in an.classes(['ut_map', 'ut_set']):
+        for m in an.entry_points(cm):
+            if ops.kind_of(m) == 'INSERT':
+                for top in method_segments(an, cm, roles, m):
+                    check_purge_first(res, 'C09', cm, roles, m, top)
 
 
 # ---------------------------------------------------------------------------------------------- C02
@@ -653,6 +659,21 @@ def rule_c03(an, res):
                     if not ok_f:
                         continue
                     check_removals(res, prop, cm, roles, m, k, seg)
+                    # erased slots return to the free side so that the next insert re-uses them instead of evicting
+                    if roles.order is not None and seg.effs('UNBIND') and not any(s2.effs('PART', 'BIND', 'UNBIND', 'CNT') for lp, ss in seg.loops for s2 in ss):
+                        from rules_pos import simulate
+                        sim = simulate(seg, roles)
+                        bad = sim.integrity() if not sim.unknown else ['position of the freed slot not established: ' + '; '.join(sim.unknown[:2])]
+                        res.ob('R-FREED-SLOT-REUSABLE', ok=not bad)
+                        if bad:
+                            V(res, prop, 'R-FREED-SLOT-REUSABLE', cm, where_of(m, seg), 'freed slot is not returned to the free side of the slot list',
+                              first_site(seg.effs('MOVE', 'UNBIND'), seg, m), 'after path [%s] the slot list is %s: %s (the next insert would evict a live '
+                              'entry although a free slot exists, or hand out a live slot)' % (' '.join(seg.valuation()), sim.show(), '; '.join(bad)))
+                if k == 'INSERT' and cm.name in TTL_CACHES:
+                    # removals guarded by "the ttl head is expired" read the ttl structure's key: it has to be the entry's deadline
+                    from rules_ttl import check_refile
+                    for b in ops.find_bodies(top, m):
+                        check_refile(res, prop, cm, roles, m, b)
 
 
 def check_removals(res, prop, cm, roles, m, k, seg):
